@@ -71,7 +71,7 @@ func NewCtx(id, tier string) *Ctx {
 		knownSeen: map[string]int{}, distinct: map[string]struct{}{}, Extra: map[string]any{}, counters: map[string]int{}, sets: map[string]map[string]struct{}{}, MinDistinct: 2, shard: -1}
 	if sh := os.Getenv("VERIF_SHARD"); sh != "" {
 		fmt.Sscanf(sh, "%d/%d", &c.shard, &c.shards)
-	} else if old, err := filepath.Glob(filepath.Join(VerifRoot, "replay", id, fmt.Sprintf("%s-seed%d-*.json", tier, seed))); err == nil {
+	} else if old, err := filepath.Glob(filepath.Join(OutRoot(), "replay", id, fmt.Sprintf("%s-seed%d-*.json", tier, seed))); err == nil {
 		for _, f := range old { // replay files of an earlier run of the same (tier, seed) are stale
 			_ = os.Remove(f)
 		}
@@ -162,7 +162,7 @@ func (c *Ctx) Violation(key string, what string, replay map[string]any) {
 		return
 	}
 	c.replayN++
-	dir := filepath.Join(VerifRoot, "replay", c.ID)
+	dir := filepath.Join(OutRoot(), "replay", c.ID)
 	_ = os.MkdirAll(dir, 0o755)
 	path := filepath.Join(dir, fmt.Sprintf("%s-seed%d-%d.json", c.Tier, c.Seed, c.replayN))
 	if replay == nil {
@@ -240,9 +240,9 @@ func (c *Ctx) Finish() {
 	viol := c.violations
 	inc := len(c.inconcl)
 	c.mu.Unlock()
-	_ = os.MkdirAll(filepath.Join(VerifRoot, "evidence"), 0o755)
+	_ = os.MkdirAll(filepath.Join(OutRoot(), "evidence"), 0o755)
 	b, _ := json.MarshalIndent(ev, "", " ")
-	if err := os.WriteFile(filepath.Join(VerifRoot, "evidence", c.ID+".json"), b, 0o644); err != nil {
+	if err := os.WriteFile(filepath.Join(OutRoot(), "evidence", c.ID+".json"), b, 0o644); err != nil {
 		fmt.Fprintf(os.Stderr, "cannot write evidence: %v\n", err)
 		os.Exit(2)
 	}
@@ -332,7 +332,7 @@ type shardDump struct {
 }
 
 func shardFile(id string, k int) string {
-	return filepath.Join(VerifRoot, "out", "shards", fmt.Sprintf("%s-%d.json", id, k))
+	return filepath.Join(OutRoot(), "out", "shards", fmt.Sprintf("%s-%d.json", id, k))
 }
 
 // FinishShard dumps what this shard observed for the parent and exits 0.
@@ -443,7 +443,7 @@ func (c *Ctx) RunShards() {
 // ---- crash / hang bookkeeping inside a shard ----
 
 func currentFile(id string, k int) string {
-	return filepath.Join(VerifRoot, "out", "shards", fmt.Sprintf("%s-%d.current.json", id, k))
+	return filepath.Join(OutRoot(), "out", "shards", fmt.Sprintf("%s-%d.current.json", id, k))
 }
 
 var watchdogMu sync.Mutex
@@ -461,7 +461,7 @@ func (c *Ctx) Begin(caseID string, inputs map[string]string) {
 		m[k] = v
 	}
 	b, _ := json.Marshal(m)
-	_ = os.MkdirAll(filepath.Join(VerifRoot, "out", "shards"), 0o755)
+	_ = os.MkdirAll(filepath.Join(OutRoot(), "out", "shards"), 0o755)
 	_ = os.WriteFile(currentFile(c.ID, c.shard), b, 0o644)
 	watchdogMu.Lock()
 	watchdogDeadline = time.Now().Add(CaseWatchdog)
@@ -501,4 +501,13 @@ func (c *Ctx) EvalDistinctOnly(key string) {
 	c.mu.Lock()
 	c.distinct[key] = struct{}{}
 	c.mu.Unlock()
+}
+
+// OutRoot is where evidence, replay files and scratch output go: /verif, unless VERIF_OUTROOT points a
+// sensitivity experiment (a run against a scratch copy of the repository) somewhere else.
+func OutRoot() string {
+	if d := os.Getenv("VERIF_OUTROOT"); d != "" {
+		return d
+	}
+	return VerifRoot
 }
